@@ -88,6 +88,10 @@ def slotted(  # noqa: C901
         cls_dict = {**cls.__dict__}
         # Create only missing slots
         inherited_slots = set().union(*(getattr(c, "__slots__", ()) for c in cls.mro()))
+        # A base class without __slots__ already provides `__dict__` and `__weakref__`:
+        #   asking for them again is a TypeError at class creation.
+        if any("__slots__" not in vars(c) for c in cls.mro()[1:-1]):
+            inherited_slots |= {"__dict__", "__weakref__"}
 
         field_names = {f.name: ... for f in dataclasses.fields(cls) if f.name}
         if dict:
